@@ -138,7 +138,7 @@ def marshal(
                 if (
                     buffer_depleted
                     and tpm_type is CommandResponseStream
-                    and event.path == Path.from_string(".")
+                    and event.path == root_path
                     and event.value is ...
                 ):
                     # root path of new command/response although bytes are depleted
